@@ -1614,6 +1614,8 @@ class LegPipe(LegCharge):
 
         """
         super().save_hdf5(hdf5_saver, h5gr, subpath)
+        h5gr.attrs['sorted'] = self.sorted  # needed by from_hdf5 for any LegCharge format
+        h5gr.attrs['bunched'] = self.bunched
         hdf5_saver.save(self.legs, subpath + 'legs')
 
     @classmethod
